@@ -19,7 +19,7 @@ RULE = (
 )
 ASSUMPTIONS = [
     'the same alias on two alternatives of one disjunction is a don\'t-care (the statement speaks of a second binding along the chain) and is not generated',
-    'an event alias captured by a quantifier of the same name is outside the domain (known finding F16, probed by a labelled family)',
+    'an event alias captured by a quantifier of the same name (finding F16, repaired) is probed by a labelled family and must be accepted',
 ]
 
 ###############################################################################
